@@ -697,6 +697,206 @@ fn pm_abs_c06(spdc: &SPDC, ws: f64, wi: f64, integ: Integrator) -> Option<f64> {
   guard(move || (*(phasematch_fiber_coupling(w(ws), w(wi), &s, integ) / PerMeter4::new(1.0))).norm())
 }
 
+/// 'Copied value' setups.  Independent random draws never make two quantities of a setup bit-equal, yet that is how setups
+/// are written down (mirror-symmetric collection arms with the same polar angle, the same waist on both fibres, exactly
+/// degenerate wavelengths, both foci at the same depth, a grating of L/k) — and where a comparison-based shortcut
+/// (`if theta_i == theta_s { reuse the signal's … }`) would take its branch.  Returns the list of what was copied.
+fn copy_values(r: &mut Rng, spdc: &mut SPDC) -> Vec<&'static str> {
+  use std::f64::consts::PI as PI_;
+  let mut tags: Vec<&'static str> = vec![];
+  let l = spdc.crystal_setup.length.value_unsafe;
+  let (lo, _hi) = window(&spdc.crystal_setup.crystal);
+  // wavelengths exactly degenerate: idler frequency := signal frequency, pump := their sum
+  if r.below(4) == 0 && 0.5 * spdc.signal.vacuum_wavelength().value_unsafe >= 1.03 * lo {
+    let f = spdc.signal.frequency();
+    spdc.idler.set_frequency(f);
+    spdc.pump.set_frequency(f + f);
+    tags.push("freq");
+  }
+  // angles
+  match r.below(8) {
+    0..=3 => {
+      // the idler's internal polar angle is the signal's, bit for bit
+      if spdc.signal.theta_internal().value_unsafe == 0.0 || r.below(4) == 0 {
+        // a round number of degrees, as written in a config
+        let d = *r.pick(&[0.5, 1.0, 2.0, 3.0]);
+        let ph = spdc.signal.phi();
+        let back = spdc.signal.direction().z < 0.0;
+        spdc.signal.set_angles(ph, if back { (180.0 - d) * DEG } else { d * DEG });
+        tags.push("theta-round");
+      }
+      let th = spdc.signal.theta_internal();
+      let phs = spdc.signal.phi().value_unsafe;
+      let phi_i = match r.below(6) {
+        0..=2 => phs + PI_,
+        3 => phs,
+        4 => phs + 0.5 * PI_,
+        _ => r.range(0.0, 2.0 * PI_),
+      };
+      spdc.idler.set_angles(phi_i * RAD, th);
+      tags.push("theta");
+    }
+    4 => {
+      // equal EXTERNAL angles on opposite azimuths (the internal ones then differ by the index ratio)
+      let cs = spdc.crystal_setup.clone();
+      let sig = spdc.signal.clone();
+      let mut idl = spdc.idler.clone();
+      let phs = spdc.signal.phi().value_unsafe;
+      if let Some(b) = guard(move || {
+        let te = sig.theta_external(&cs);
+        idl.set_phi((phs + PI_) * RAD);
+        idl.set_theta_external(te, &cs);
+        idl
+      }) {
+        spdc.idler = b;
+        tags.push("theta-external");
+      }
+    }
+    5 => {
+      // same azimuth, independent polar angles
+      let ph = spdc.signal.phi();
+      let th = spdc.idler.theta_internal();
+      spdc.idler.set_angles(ph, th);
+      tags.push("phi");
+    }
+    _ => {}
+  }
+  // waists
+  if r.below(3) == 0 {
+    let ws = spdc.signal.waist();
+    spdc.idler.set_waist(ws);
+    tags.push("waist");
+    if r.below(3) == 0 {
+      spdc.pump.set_waist(ws);
+      tags.push("pump-waist");
+    }
+  }
+  // waist positions
+  match r.below(8) {
+    0 | 1 => {
+      spdc.idler_waist_position = spdc.signal_waist_position;
+      tags.push("z0");
+    }
+    2 => {
+      spdc.signal_waist_position = 0.0 * M;
+      spdc.idler_waist_position = 0.0 * M;
+      tags.push("z0-zero");
+    }
+    3 => {
+      spdc.signal_waist_position = -0.5 * l * M;
+      spdc.idler_waist_position = -0.5 * l * M;
+      tags.push("z0-mid");
+    }
+    _ => {}
+  }
+  // grating of exactly L/k
+  let mut period_fixed = false;
+  if let PeriodicPoling::On { period, .. } = &mut spdc.pp {
+    if r.below(5) == 0 {
+      let k = *r.pick(&[1.0, 2.0, 3.0, 10.0, 100.0, 1000.0]);
+      *period = l / k * M;
+      period_fixed = true;
+      tags.push("period-L/k");
+    }
+  }
+  // phase-match the edited setup again with the crate's own single-parameter optimum calls (they leave the copies alone)
+  if !period_fixed && r.coin() {
+    let s2 = spdc.clone();
+    let poled = spdc.pp != PeriodicPoling::Off;
+    if let Some(Some(s)) = guard(move || {
+      let mut s2 = s2;
+      if poled {
+        s2.assign_optimum_periodic_poling().ok()?;
+      } else {
+        s2.assign_optimum_crystal_theta();
+      }
+      Some(s2)
+    }) {
+      *spdc = s;
+      tags.push("rematched");
+    }
+  }
+  tags
+}
+
+/// A setup as it is written down in a config file: round numbers, collection arms given explicitly and symmetrically
+/// (the same `theta_deg` / `theta_external_deg` on opposite azimuths, the same waist), built by `SPDC::from_json`.
+fn gen_written_setup(r: &mut Rng) -> Option<SPDC> {
+  use serde_json::json;
+  let crystal = r.pick(&CRYSTALS).clone();
+  let pm_type = *r.pick(&PMTYPES);
+  let deg = r.coin();
+  let (lp, ls) = gen_wavelengths(r, &crystal, deg)?;
+  let lp_nm = (lp * 1e10).round() / 10.0;
+  let ls_nm = if deg { 2.0 * lp_nm } else { (ls * 1e10).round() / 10.0 };
+  let li_nm = if deg { ls_nm } else { (ls_nm * lp_nm / (ls_nm - lp_nm) * 10.0).round() / 10.0 };
+  let th = *r.pick(&[0.5, 1.0, 1.5, 2.0, 3.0]);
+  let key = if r.below(3) == 0 { "theta_external_deg" } else { "theta_deg" };
+  let phi_s = *r.pick(&[0.0, 0.0, 90.0, 45.0, 30.0]);
+  let phi_i = if r.below(4) == 0 { phi_s } else { phi_s + 180.0 };
+  let waist = *r.pick(&[30.0, 50.0, 100.0, 200.0]);
+  let waist_i = if r.below(4) == 0 { *r.pick(&[30.0, 50.0, 100.0, 200.0]) } else { waist };
+  let l_um = *r.pick(&[500.0, 1000.0, 2000.0, 5000.0, 10000.0, 20000.0]);
+  let zpos = match r.below(3) {
+    0 => json!("auto"),
+    1 => json!(0.0),
+    _ => json!(l_um / 2.0),
+  };
+  let poled = r.coin();
+  let ctheta = if poled { json!(*r.pick(&[90.0, 90.0, 0.0, 45.0, 60.0])) } else { json!("auto") };
+  let mut cfg = json!({
+    "crystal": {
+      "kind": serde_json::to_value(&crystal).ok()?,
+      "pm_type": pm_type.to_string(),
+      "phi_deg": *r.pick(&[0.0, 0.0, 90.0, 45.0]),
+      "theta_deg": ctheta,
+      "length_um": l_um,
+      "temperature_c": *r.pick(&[20.0, 25.0, 50.0]),
+    },
+    "pump": {
+      "wavelength_nm": lp_nm,
+      "waist_um": *r.pick(&[50.0, 100.0, 200.0, 500.0]),
+      "bandwidth_nm": *r.pick(&[0.1, 0.5, 1.0, 5.35]),
+      "average_power_mw": *r.pick(&[1.0, 10.0, 100.0]),
+      "spectrum_threshold": *r.pick(&[1e-9, 1e-2]),
+    },
+    "signal": { "wavelength_nm": ls_nm, "phi_deg": phi_s, "waist_um": waist, "waist_position_um": zpos.clone() },
+    "idler": { "wavelength_nm": li_nm, "phi_deg": phi_i, "waist_um": waist_i, "waist_position_um": zpos },
+    "deff_pm_per_volt": *r.pick(&[1.0, 2.0, 7.6]),
+  });
+  cfg["signal"][key] = json!(th);
+  cfg["idler"][key] = json!(th);
+  if poled {
+    cfg["periodic_poling"] = json!({ "poling_period_um": "auto" });
+  }
+  let text = cfg.to_string();
+  let spdc = guard(move || SPDC::from_json(text))?.ok()?;
+  if view(&spdc)?.all_finite() {
+    Some(spdc)
+  } else {
+    None
+  }
+}
+
+/// K `pm_integrand` at z = −1, 1, 0 and two random z
+fn k_integrand(ctx: &mut Ctx, spdc: &SPDC, v: &View, ws: f64, wi: f64, tag: &str) {
+  let st = setup_tokens(v, spdc, ws, wi);
+  let zs = [-1.0, 1.0, 0.0, ctx.rng.range(-1.0, 1.0), ctx.rng.range(-1.0, 1.0)];
+  let tab = apod_table(spdc, &zs);
+  let s2 = spdc.clone();
+  let outs = guard(move || {
+    let f = get_pm_integrand(w(ws), w(wi), &s2);
+    zs.iter().map(|&z| f(z)).collect::<Vec<_>>()
+  });
+  match outs {
+    Some(o) => {
+      let o: Vec<String> = o.into_iter().map(cx).collect();
+      ctx.k("pm_integrand", &format!("{} {}", st, tab), &o.join(" "));
+    }
+    None => ctx.count(&format!("{}/pm_integrand/panic", tag)),
+  }
+}
+
 /// the statement of C06 on the real code
 fn c06_cases(ctx: &mut Ctx) {
   let mut worst_e = 0.0f64;
@@ -708,14 +908,23 @@ fn c06_cases(ctx: &mut Ctx) {
     tries += 1;
     // two thirds phase-matched at the centre (so that amplitudes are not mere side-lobe residue)
     let o = if tries % 3 == 0 { &opts } else { &opts_pm };
-    let spdc = match gen_setup(&mut ctx.rng, o) {
+    // every 12th setup is a written-down one (round numbers, explicit symmetric arms, through SPDC::from_json)
+    let written = tries % 12 == 11;
+    let spdc = match if written { gen_written_setup(&mut ctx.rng) } else { gen_setup(&mut ctx.rng, o) } {
       Some(s) => s,
       None => {
-        ctx.count("c06/setup-rejected");
+        ctx.count(if written { "c06/written-setup-rejected" } else { "c06/setup-rejected" });
         continue;
       }
     };
     let mut spdc = spdc;
+    // 'copied value' theme on 30 % of the generated setups
+    let mut copied: Vec<&'static str> = vec![];
+    if written {
+      copied.push("written");
+    } else if ctx.rng.below(10) < 3 {
+      copied = copy_values(&mut ctx.rng, &mut spdc);
+    }
     // the PM label and the beams' own polarisations may disagree (set_polarization on one beam, or the label edited alone):
     // well defined — all spectrum code reads the beams — and the exchange must carry the beams over unchanged
     match ctx.rng.below(8) {
@@ -783,7 +992,34 @@ fn c06_cases(ctx: &mut Ctx) {
     };
     made += 1;
     count_setup(ctx, "c06", &spdc);
-    let desc = describe(&spdc);
+    let desc = if copied.is_empty() { describe(&spdc) } else { format!("copied={} {}", copied.join("+"), describe(&spdc)) };
+    for t in copied.iter() {
+      ctx.count(&format!("c06/copied/{}", t));
+    }
+    {
+      // bit-equal quantities of this setup (whatever produced them)
+      let (sg, id) = (&spdc.signal, &spdc.idler);
+      let th_eq = sg.theta_internal() == id.theta_internal();
+      if th_eq {
+        ctx.count(if sg.theta_internal().value_unsafe == 0.0 { "c06/bit-equal/theta/zero" } else { "c06/bit-equal/theta/nonzero" });
+        let differ = sg.polarization() != id.polarization() || sg.frequency() != id.frequency();
+        if differ && sg.theta_internal().value_unsafe != 0.0 {
+          ctx.count("c06/bit-equal/theta/nonzero-refracting-differently");
+        }
+      }
+      if sg.waist() == id.waist() {
+        ctx.count("c06/bit-equal/waist");
+      }
+      if sg.frequency() == id.frequency() {
+        ctx.count("c06/bit-equal/frequency");
+      }
+      if spdc.signal_waist_position == spdc.idler_waist_position {
+        ctx.count("c06/bit-equal/waist-position");
+      }
+      if sg.phi() == id.phi() {
+        ctx.count("c06/bit-equal/phi");
+      }
+    }
     // swap is an involution
     let back = swapped.clone().with_swapped_signal_idler();
     ctx.s("C06.involutive", back == spdc, "swap/involutive", &desc);
@@ -791,8 +1027,22 @@ fn c06_cases(ctx: &mut Ctx) {
     // amplitude (magnitude and phase) and intensity at frequency pairs
     let v = view(&spdc).unwrap();
     let vs = view(&swapped).unwrap();
-    for _ in 0..4 {
+    for pair in 0..4 {
       let (ws, wi) = gen_freqs(&mut ctx.rng, &spdc);
+      // copied-value setups: also the copied frequency pairs — exactly the centre, exactly equal frequencies
+      let (ws, wi) = match (copied.is_empty(), pair) {
+        (false, 0) => (raw_w(spdc.signal.frequency()), raw_w(spdc.idler.frequency())),
+        (false, 1) if ctx.rng.coin() => {
+          let h = 0.5 * (ws + wi);
+          (h, h)
+        }
+        _ => (ws, wi),
+      };
+      if !copied.is_empty() && pair < 2 {
+        // correspondence of the integrand on these setups, for the setup and its twin
+        k_integrand(ctx, &spdc, &v, ws, wi, "c06");
+        k_integrand(ctx, &swapped, &vs, wi, ws, "c06");
+      }
       let (j1, j2) = (js.0.clone(), js.1.clone());
       let r = guard(move || {
         (j1.jsa(w(ws), w(wi)), j2.jsa(w(wi), w(ws)), j1.jsi(w(ws), w(wi)).value_unsafe, j2.jsi(w(wi), w(ws)).value_unsafe)
@@ -985,6 +1235,12 @@ fn c06_cases(ctx: &mut Ctx) {
 
 
 // ------------------------------------------------------------------------------------------ C07
+
+/// wide ranges of the c07 generator (waists of all three beams, crystal length), metres
+const WAIST_LO: f64 = 2e-6;
+const WAIST_HI: f64 = 2e-2;
+const LENGTH_LO: f64 = 2e-5;
+const LENGTH_HI: f64 = 0.3;
 
 fn next_up(x: f64) -> f64 {
   if x.is_nan() || x == f64::INFINITY {
@@ -1241,6 +1497,116 @@ fn range_route(ctx: &mut Ctx, spdc: &SPDC, scaled: &SPDC, f: f64, range: Frequen
   ctx.s("C07.invariant", wi_ <= 1e-9, "invariant/range-route", &format!("relerr={:e} judged={} {}", wi_, judged, det));
 }
 
+/// The envelope clause on one setup: amplitude 1 at the pump centre frequency, intensity ½ at ± half the frequency span of
+/// the wavelength FWHM (and, Gaussian, 2⁻⁴ at ± one span); K `pump_amp` at the half-span points.
+fn envelope_block(ctx: &mut Ctx, spdc: &SPDC, desc: &str) {
+  let wp0 = raw_w(spdc.pump.frequency());
+  let lp = spdc.pump.vacuum_wavelength();
+  let bw = spdc.pump_bandwidth;
+  let a0 = pump_spectral_amplitude(w(wp0), spdc);
+  ctx.s("C07.envelope", (a0 - 1.0).abs() <= 1e-12, "envelope/centre", &format!("amp={:e} {}", a0, desc));
+  let span = raw_w(vacuum_wavelength_to_frequency(lp - 0.5 * bw) - vacuum_wavelength_to_frequency(lp + 0.5 * bw));
+  for sgn in [1.0, -1.0] {
+    let om = wp0 + sgn * 0.5 * span;
+    let a = pump_spectral_amplitude(w(om), spdc);
+    // the argument wp0 ± span/2 is itself rounded to ulp(wp0): relative error ulp(wp0)/span in x
+    let slack = 1e-9 + 4.0 * (wp0 * f64::EPSILON) / span.abs();
+    ctx.s(
+      "C07.envelope",
+      (a * a - 0.5).abs() <= slack,
+      "envelope/half",
+      &format!("intensity={:.17e} omega={:.17e} span={:.17e} {}", a * a, om, span, desc),
+    );
+    ctx.k("pump_amp", &format!("{} {} {}", fl(om), fl(wp0), fl(bw.value_unsafe)), &fl(a));
+    // Gaussian: at ± one full span the intensity is (1/2)^4
+    let om2 = wp0 + sgn * span;
+    let a2 = pump_spectral_amplitude(w(om2), spdc);
+    ctx.s(
+      "C07.envelope",
+      (a2 * a2 - 0.0625).abs() <= 0.5 * slack,
+      "envelope/gaussian-full-span",
+      &format!("intensity={:.17e} omega={:.17e} span={:.17e} {}", a2 * a2, om2, span, desc),
+    );
+  }
+}
+
+/// `jsa_raw` = envelope × phase matching AT the half-span points: for a pair whose sum sits at ω₀ ± Δ/2 the raw joint amplitude
+/// is 2^-½ of the phase-matching amplitude (and the raw singles intensity ½ of the singles phase-matching function), whatever the
+/// bandwidth.  (`factor/envelope-times-pm` multiplies by the crate's own envelope value, so it cannot see an envelope that is
+/// wrong in the same way on both sides.)
+fn half_span_factor(ctx: &mut Ctx, se: &SPDC, integ: Integrator, divs: usize, desc: &str, singles: bool) {
+  let wp0 = raw_w(se.pump.frequency());
+  let lp = se.pump.vacuum_wavelength();
+  let bw = se.pump_bandwidth;
+  let thr = se.pump_spectrum_threshold;
+  // the envelope there (2^-½) has to lie above the threshold
+  if !(thr <= 0.5) {
+    ctx.count("c07/half-span/threshold-above-envelope");
+    return;
+  }
+  let span = raw_w(vacuum_wavelength_to_frequency(lp - 0.5 * bw) - vacuum_wavelength_to_frequency(lp + 0.5 * bw));
+  let slack = 1e-9 + 4.0 * (wp0 * f64::EPSILON) / span.abs();
+  let ws = raw_w(se.signal.frequency());
+  for sgn in [1.0, -1.0] {
+    let om = wp0 + sgn * 0.5 * span;
+    let wi = om - ws;
+    let off_box = ws <= 0.0 || wi <= 0.0 || ws > wp0 || wi > wp0 || (ws - wi).abs() > 0.75 * wp0;
+    if off_box {
+      ctx.count("c07/half-span/off-box");
+      continue;
+    }
+    let det = format!("ws={:.17e} wi={:.17e} span={:.17e} divs={} {}", ws, wi, span, divs, desc);
+    let s1 = se.clone();
+    let r = guard(move || {
+      let raw = jsa_raw(w(ws), w(wi), &s1, integ);
+      let pm = *(phasematch_fiber_coupling(w(ws), w(wi), &s1, integ) / PerMeter4::new(1.0));
+      let sing = if singles {
+        Some((jsi_singles_raw(w(ws), w(wi), &s1, integ), *(phasematch_singles_fiber_coupling(w(ws), w(wi), &s1, integ) / PerMeter3::new(1.0))))
+      } else {
+        None
+      };
+      (raw, pm, sing)
+    });
+    match r {
+      None => ctx.s("C07.finite", !in_window(se, ws, wi), "finite/panic", &det),
+      Some((raw, pm, sing)) => {
+        let pn = pm.norm();
+        if pn.is_finite() && pn > 1e-290 && pn < 1e290 {
+          let q = raw.norm() / pn;
+          ctx.s("C07.factor", (q * q - 0.5).abs() <= slack, "factor/half-span", &format!("ratio2={:.17e} raw=({:e},{:e}) pm=({:e},{:e}) {}", q * q, raw.re, raw.im, pm.re, pm.im, det));
+          ctx.count("c07/half-span/judged");
+        } else {
+          ctx.count("c07/half-span/pm-zero-or-out-of-range");
+        }
+        if let Some((sraw, fs)) = sing {
+          if fs.is_finite() && fs.abs() > 1e-290 && fs.abs() < 1e290 {
+            let q = sraw / fs;
+            ctx.s("C07.singles_factor", (q - 0.5).abs() <= slack, "singles-factor/half-span", &format!("ratio={:.17e} sraw={:e} fs={:e} {}", q, sraw, fs, det));
+          }
+        }
+      }
+    }
+  }
+}
+
+/// The envelope clause holds for every positive bandwidth (0 < fwhm < 2λp): clones of the setup with the bandwidth log-uniform
+/// over 1e-20 m … 1e-7 m (sub-femtometre CW linewidths up to 100 nm) and, one in six, 2 %…150 % of the pump wavelength.
+fn envelope_decades(ctx: &mut Ctx, spdc: &SPDC, integ: Integrator, divs: usize) {
+  let lpv = spdc.pump.vacuum_wavelength().value_unsafe;
+  for k in 0..3 {
+    let mut se = spdc.clone();
+    let bwv = if ctx.rng.below(6) == 0 { lpv * ctx.rng.range(0.02, 1.5) } else { ctx.rng.log_range(1e-20, 1e-7) };
+    se.pump_bandwidth = bwv * M;
+    ctx.count(&format!("c07/envelope-decades/bw-1e{:+03}", bwv.log10().floor() as i64));
+    let d = describe(&se);
+    envelope_block(ctx, &se, &d);
+    let sw = fwhm_to_spectral_width(se.pump.vacuum_wavelength(), se.pump_bandwidth);
+    ctx.k("spectral_width", &format!("{} {}", fl(lpv), fl(bwv)), &fl(raw_w(sw)));
+    half_span_factor(ctx, &se, integ, divs, &d, k == 0);
+  }
+}
+
+/// the statement of C07 on the real code
 fn c07_cases(ctx: &mut Ctx) {
   let opts = GenOpts { plane_wave: false, phase_matched: false, counter: None, tilted_biaxial: false, unpoled: false };
   let opts_pm = GenOpts { plane_wave: false, phase_matched: true, counter: None, tilted_biaxial: false, unpoled: false };
@@ -1259,6 +1625,39 @@ fn c07_cases(ctx: &mut Ctx) {
       }
     };
     let mut spdc = spdc;
+    // wide decades (each with probability 1/8, independently): the statement quantifies over all setups, and a cut-off such as
+    // `if x < f64::EPSILON` on a quantity in SI units only shows many decades away from the everyday values
+    if ctx.rng.below(8) == 0 {
+      spdc.pump_bandwidth = ctx.rng.log_range(1e-20, 1e-7) * M;
+      ctx.count("c07/wide/bandwidth");
+    }
+    if ctx.rng.below(8) == 0 {
+      spdc.pump_spectrum_threshold = 10f64.powf(-ctx.rng.log_range(0.05, 300.0));
+      ctx.count("c07/wide/threshold");
+    }
+    if ctx.rng.below(8) == 0 {
+      spdc.pump_average_power = ctx.rng.log_range(1e-6, 1e6) * MILLIW;
+      ctx.count("c07/wide/power");
+    }
+    if ctx.rng.below(8) == 0 {
+      spdc.deff = MetersPerMilliVolt::new(ctx.rng.log_range(1e-4, 1e4) * 1e-15);
+      ctx.count("c07/wide/deff");
+    }
+    if ctx.rng.below(8) == 0 {
+      let (a, b, c) = (ctx.rng.log_range(WAIST_LO, WAIST_HI), ctx.rng.log_range(WAIST_LO, WAIST_HI), ctx.rng.log_range(WAIST_LO, WAIST_HI));
+      spdc.signal.set_waist(BeamWaist::new(a * M));
+      spdc.idler.set_waist(BeamWaist::new(b * M));
+      spdc.pump.set_waist(BeamWaist::new(c * M));
+      ctx.count("c07/wide/waists");
+    }
+    if ctx.rng.below(8) == 0 {
+      spdc.crystal_setup.length = ctx.rng.log_range(LENGTH_LO, LENGTH_HI) * M;
+      ctx.count("c07/wide/length");
+    }
+    if view(&spdc).map(|v| v.all_finite()) != Some(true) {
+      ctx.count("c07/setup-rejected");
+      continue;
+    }
     // a quarter of the setups are NOT energy matched: the signal (or the idler) is retuned by a fraction of the pump's
     // spectral width without recomputing the other beam, so ωs0 + ωi0 ≠ ωp — the envelope is centred on the pump
     if ctx.rng.below(4) == 0 {
@@ -1294,31 +1693,9 @@ fn c07_cases(ctx: &mut Ctx) {
     let thr = spdc.pump_spectrum_threshold;
 
     // ---- envelope: amplitude 1 at the centre, intensity 1/2 at ± half the frequency span of the FWHM
-    let a0 = pump_spectral_amplitude(w(wp0), &spdc);
-    ctx.s("C07.envelope", (a0 - 1.0).abs() <= 1e-12, "envelope/centre", &format!("amp={:e} {}", a0, desc));
-    let span = raw_w(vacuum_wavelength_to_frequency(lp - 0.5 * bw) - vacuum_wavelength_to_frequency(lp + 0.5 * bw));
-    for sgn in [1.0, -1.0] {
-      let om = wp0 + sgn * 0.5 * span;
-      let a = pump_spectral_amplitude(w(om), &spdc);
-      // the argument wp0 ± span/2 is itself rounded to ulp(wp0): relative error ulp(wp0)/span in x
-      let slack = 1e-9 + 4.0 * (wp0 * f64::EPSILON) / span.abs();
-      ctx.s(
-        "C07.envelope",
-        (a * a - 0.5).abs() <= slack,
-        "envelope/half",
-        &format!("intensity={:.17e} omega={:.17e} span={:.17e} {}", a * a, om, span, desc),
-      );
-      ctx.k("pump_amp", &format!("{} {} {}", fl(om), fl(wp0), fl(bw.value_unsafe)), &fl(a));
-      // Gaussian: at ± one full span the intensity is (1/2)^4
-      let om2 = wp0 + sgn * span;
-      let a2 = pump_spectral_amplitude(w(om2), &spdc);
-      ctx.s(
-        "C07.envelope",
-        (a2 * a2 - 0.0625).abs() <= 0.5 * slack,
-        "envelope/gaussian-full-span",
-        &format!("intensity={:.17e} omega={:.17e} span={:.17e} {}", a2 * a2, om2, span, desc),
-      );
-    }
+    envelope_block(ctx, &spdc, &desc);
+    // ---- the same clause for every positive bandwidth: 13 decades below and up to 1.5 pump wavelengths
+    envelope_decades(ctx, &spdc, integ, divs);
 
     // ---- jsa_raw = envelope × phase-matching amplitude ; finite inside the window
     let v = view(&spdc).unwrap();
